@@ -7,6 +7,24 @@ NOTES = ("All checks: bin/check <id>. Each run regenerates coq/Gen from /repo, r
          "Known findings: KNOWN_FINDINGS.txt.")
 NOT_APPLICABLE = {}
 CLAIMED = {
+    "C17": {
+        "text": "Theorems over a transition system (shared disk, exclusive lock, any number of processes, kills at every step): mutual exclusion of check/build/"
+                "stamp/use, the invariant 'stamp present implies linker complete whenever the lock is free', and 'whoever runs the cached linker holds the lock "
+                "and sees a complete file' in every reachable state. Tied by a translator that regenerates the call order of PatchLinker and of the link step "
+                "(lock, check, build, stamp; defer unlock before Run) and by concurrent real builds (same project twice, another flag, another project, "
+                "different -p) on empty shared caches compared with solo builds. Partial: flock/MkdirTemp semantics and cmd/go's locking are assumed.",
+        "note": "Trusted: Coq kernel; translator; OS file locks; real concurrent builds sample the schedules. No axioms.",
+        "technique": "Coq invariant proof over all interleavings of a protocol model + regenerated protocol-order obligation + concurrent build runs",
+    },
+    "C18": {
+        "text": "Theorems: the linker invariant is preserved by a kill at every program point of every process, and after any such execution a fresh run reaches "
+                "the point of use with a complete, stamped linker; an entry interrupted mid-write reads as a miss or as the full bytes (C07); the stamp is "
+                "written after the build in the source now; the hand-deleted-linker-plus-kill double fault is recorded as a refuted statement outside the "
+                "quantifier. Tied by the protocol-order translator and by SIGKILL of the whole process group at points spread over a cold build followed by a "
+                "rerun compared with the uninterrupted build.",
+        "note": "Trusted: Coq kernel; translator; the OS keeps a prefix of an interrupted write and drops locks of dead processes. No axioms.",
+        "technique": "Coq invariant proof with a crash step at every program point + kill -9 sampling on real builds",
+    },
     "C06": {
         "text": "Theorems: for every history of builds over a shared cache each output equals the cold build's, given that equal keys imply equal cold outputs; a "
                 "no-op rebuild recompiles nothing; garble's key input is injective in action id, binary id, GOGARBLE and flags (C12); every build-affecting flag "
